@@ -43,6 +43,39 @@ def inplace(rc):
                 continue
             rc.fail(f, m.node, f"with inplace=False, `{norm(m.node, 70)}` still modifies `{m.root}` ({m.how}); out-of-place operations must work on a copy",
                     construct=f"{m.root}: {norm(m.node, 110)}")
+        # the out-of-place result must not share storage with an operand (a view of the operand's table is corrupted by —
+        # and corrupts — later in-place edits of either object)
+        for st, roots in fl.alias_stores:
+            v = st.value
+            viewish = isinstance(v, (ast.Subscript, ast.Attribute, ast.Name)) or (isinstance(v, ast.Call) and call_name(v) in
+                      ("reshape", "ravel", "swapaxes", "transpose", "squeeze", "view", "asarray"))
+            if isinstance(v, ast.Name):
+                # follow one local definition: K = self.K[np.ix_(...)] is a copy, X = self.values[tuple(slice_)] may be a view
+                defs = [n.value for n in walk_no_nested(f.node) if isinstance(n, ast.Assign) and dotted(n.targets[0]) == v.id]
+                v = defs[-1] if defs else v
+            if isinstance(v, ast.Subscript) and not _basic_index(v.slice):
+                viewish = False  # advanced (index-array) indexing copies
+            if viewish:
+                rc.fail(f, st, f"with inplace=False, `{norm(st, 70)}` stores a reference/view into `{sorted(roots)[0]}`'s own storage in the result: the returned object is not "
+                        f"independent of the operand", construct=f"result aliases {sorted(roots)[0]}: {norm(st, 100)}")
+        # both modes must compute the same thing: a read of self.F after the working object's F was re-bound/extended sees the
+        # new value in place and the old value out of place
+        work = shared.working_alias(f)
+        if work and work != "self":
+            written = {}
+            for n in sorted([n for n in walk_no_nested(f.node) if hasattr(n, "lineno")], key=lambda n: (n.lineno, n.col_offset)):
+                if isinstance(n, ast.Assign):
+                    for t in n.targets:
+                        for x in ([t] if not isinstance(t, (ast.Tuple, ast.List)) else t.elts):
+                            if isinstance(x, ast.Attribute) and dotted(x.value) == work:
+                                written.setdefault(x.attr, n.lineno)
+                if isinstance(n, ast.Call) and isinstance(n.func, ast.Attribute) and n.func.attr in ("extend", "append", "update", "insert", "remove") \
+                        and isinstance(n.func.value, ast.Attribute) and dotted(n.func.value.value) == work:
+                    written.setdefault(n.func.value.attr, n.lineno)
+                if isinstance(n, ast.Attribute) and isinstance(n.ctx, ast.Load) and dotted(n.value) == "self" and n.attr in written and n.lineno > written[n.attr] \
+                        and n.attr in ("variables", "cardinality", "values"):
+                    rc.fail(f, n, f"`self.{n.attr}` is read after `{work}.{n.attr}` was changed: in place it sees the new value, out of place the old one — "
+                            f"the two modes no longer compute the same result", construct=f"stale self.{n.attr} after {work}.{n.attr} changed")
         # the out-of-place path must hand the result back
         if f.name not in ("__init__",):
             fl2 = fl
@@ -102,6 +135,19 @@ def dunder(rc):
 def copydepth(rc):
     repo = rc.repo
     shared.copy_rule(rc, [c for lst in repo.classes.values() for c in lst if c.module.rel.startswith("pgmpy/factors/") and "copy" in c.methods])
+
+
+def _basic_index(sl):
+    """can this index expression produce a VIEW (basic indexing: ints, slices, tuple(...) of them)?"""
+    if isinstance(sl, (ast.Slice, ast.Constant)):
+        return True
+    if isinstance(sl, ast.Tuple):
+        return all(_basic_index(e) for e in sl.elts)
+    if isinstance(sl, ast.Call) and isinstance(sl.func, ast.Name) and sl.func.id == "tuple":
+        return True  # tuple(slice_) of ints / slice objects
+    if isinstance(sl, ast.UnaryOp):
+        return True
+    return False  # np.ix_(...), index lists, masks, names of index arrays: advanced indexing copies
 
 
 def _assigned_fields(f, base):
@@ -208,6 +254,12 @@ def coupled(rc):
 
 
 MUTANTS = [
+    dict(kind="break", name="reduce-result-views-operand", file=DF, expect="C04.inplace",
+         old="        phi.values = phi.values[tuple(slice_)]\n\n        if not inplace:", new="        phi.values = self.values[tuple(slice_)]\n\n        if not inplace:"),
+    dict(kind="break", name="sum-align-by-stale-self-variables", file=DF, expect="C04.inplace",
+         old="            # rearranging the axes of phi1 to match phi\n            for axis in range(phi.values.ndim):", new="            # rearranging the axes of phi1 to match phi\n            for axis in range(len(self.variables)):"),
+    dict(kind="break", name="factor-sum-product-set", file="pgmpy/factors/base.py", expect="C04.valuekey",
+         old="    state_names = {}\n    for phi in factors:", new="    factors = set(factors)\n    state_names = {}\n    for phi in factors:"),
     dict(kind="break", name="marginalize-works-on-self", file=DF, expect="C04.inplace",
          old="        phi = self if inplace else self.copy()\n\n        for var in variables:\n            if var not in phi.variables:\n                raise ValueError(f\"{var} not in scope.\")\n\n        var_indexes = [phi.variables.index(var) for var in variables]\n\n        index_to_keep = sorted(set(range(len(self.variables))) - set(var_indexes))\n        n_variables",
          new="        phi = self\n\n        for var in variables:\n            if var not in phi.variables:\n                raise ValueError(f\"{var} not in scope.\")\n\n        var_indexes = [phi.variables.index(var) for var in variables]\n\n        index_to_keep = sorted(set(range(len(self.variables))) - set(var_indexes))\n        n_variables"),
@@ -239,3 +291,23 @@ MUTANTS = [
     dict(kind="twin", name="copy-list-constructor", file=DF,
          old="copy.variables = [*self.variables]", new="copy.variables = list(self.variables)"),
 ]
+
+
+@rule("C04.valuekey", "factor-algebra helpers keep the multiplicity of their operands (no value-keyed container of factors)", floor=2)
+def valuekey(rc):
+    repo = rc.repo
+    mod = repo.module("pgmpy/factors/base.py")
+    for name, h in mod.functions.items():
+        if not name.startswith("factor_"):
+            continue
+        n_sets = 0
+        for n in walk_no_nested(h.node):
+            if isinstance(n, ast.Call) and isinstance(n.func, ast.Name) and n.func.id in ("set", "frozenset") and n.args and dotted(n.args[0]) in ("args", "factors"):
+                n_sets += 1
+                rc.fail(h, n, f"{name}: `{norm(n)}` merges operands that compare equal (DiscreteFactor hashes/compares by value): f*g*g becomes f*g", construct=f"{name} set of factors")
+            if isinstance(n, (ast.SetComp, ast.DictComp)) and any(dotted(g.iter) in ("args", "factors") for g in n.generators):
+                key = n.key if isinstance(n, ast.DictComp) else n.elt
+                if dotted(key) == dotted(n.generators[0].target):
+                    n_sets += 1
+                    rc.fail(h, n, f"{name}: `{norm(n, 70)}` is keyed by the factors themselves", construct=f"{name} factors as keys")
+        rc.ob(f"{name}: {n_sets} value-keyed container(s) of operands")
